@@ -153,18 +153,17 @@ Definition string_text (c : pcfg) (bs : list byte) : list byte :=
 (* characters                                                                                    *)
 (* ------------------------------------------------------------------------------------------ *)
 Definition bytes_of_string (s : list N) : list byte := s.
-(* specialCharacters *)
+(* specialCharacters: a Go map from the rune to the name (here without the leading #\) *)
+Definition special_table : list (N * list byte) :=
+  [(32%N, [83; 112; 97; 99; 101]%N);                        (* Space *)
+   (8%N, [66; 97; 99; 107; 115; 112; 97; 99; 101]%N);       (* Backspace *)
+   (12%N, [80; 97; 103; 101]%N);                            (* Page *)
+   (10%N, [78; 101; 119; 108; 105; 110; 101]%N);            (* Newline *)
+   (13%N, [82; 101; 116; 117; 114; 110]%N);                 (* Return *)
+   (9%N, [84; 97; 98]%N);                                   (* Tab *)
+   (127%N, [82; 117; 98; 111; 117; 116]%N)].                (* Rubout *)
 Definition special_char (r : N) : option (list byte) :=
-  match r with
-  | 32%N => Some [83; 112; 97; 99; 101]%N                        (* Space *)
-  | 8%N => Some [66; 97; 99; 107; 115; 112; 97; 99; 101]%N       (* Backspace *)
-  | 12%N => Some [80; 97; 103; 101]%N                            (* Page *)
-  | 10%N => Some [78; 101; 119; 108; 105; 110; 101]%N            (* Newline *)
-  | 13%N => Some [82; 101; 116; 117; 114; 110]%N                 (* Return *)
-  | 9%N => Some [84; 97; 98]%N                                   (* Tab *)
-  | 127%N => Some [82; 117; 98; 111; 117; 116]%N                 (* Rubout *)
-  | _ => None
-  end.
+  match find (fun e => (fst e =? r)%N) special_table with Some e => Some (snd e) | None => None end.
 (* Character.Append (after #\) and Character.Readably *)
 Definition char_name (r : N) : list byte :=
   match special_char r with
@@ -245,6 +244,17 @@ Definition nsize (n : node) : nat := match n with Node _ _ s => s end.
 Definition sum_sizes (l : list node) : nat := fold_right (fun n a => nsize n + a) 0%nat l.
 Definition leaf_node (b : list byte) : node := Node b [] (length b).
 
+(* the loop over elements 1.. of appendTree; f is appendTree itself *)
+Definition tree_loop (f : node -> nat -> nat -> list byte) (margin : N) (off closes : nat) :=
+  fix loop (l : list node) (pos : nat) : list byte :=
+    match l with
+    | [] => []
+    | e :: l' =>
+        let t := match l' with [] => closes + 1 | _ => 0 end in
+        if (N.of_nat (pos + nsize e + t + 1) <=? margin)%N
+        then [32%N] ++ f e 0 t ++ loop l' (pos + nsize e + t + 1)
+        else [10%N] ++ repeat 32%N off ++ f e off t ++ loop l' (off + nsize e + 1)
+    end.
 Fixpoint append_tree (margin : N) (n : node) (offset closes : nat) : list byte :=
   match n with
   | Node (b :: buf) _ _ => b :: buf
@@ -257,16 +267,7 @@ Fixpoint append_tree (margin : N) (n : node) (offset closes : nat) : list byte :
            let t := match rest with [_] => closes + 1 | _ => 0 end in
            let off := if (N.of_nat (offset + 1 + nsize e0 + nsize e1 + t + 1) <=? margin)%N
                       then offset + 1 + nsize e0 + 1 else offset + 1 in
-           append_tree margin e0 off 0 ++
-           (fix loop (l : list node) (pos : nat) : list byte :=
-              match l with
-              | [] => []
-              | e :: l' =>
-                  let t := match l' with [] => closes + 1 | _ => 0 end in
-                  if (N.of_nat (pos + nsize e + t + 1) <=? margin)%N
-                  then [32%N] ++ append_tree margin e 0 t ++ loop l' (pos + nsize e + t + 1)
-                  else [10%N] ++ repeat 32%N off ++ append_tree margin e off t ++ loop l' (off + nsize e + 1)
-              end) rest (offset + 1 + nsize e0)
+           append_tree margin e0 off 0 ++ tree_loop (append_tree margin) margin off closes rest (offset + 1 + nsize e0)
        end) ++ [41%N]
   end.
 Definition node_text (c : pcfg) (n : node) : list byte := append_tree (p_margin c) n 0 0.
@@ -374,36 +375,32 @@ Fixpoint split_slash (bs : list byte) : list byte * list byte :=
 (* resolveToken with *read-base* 10 and *read-default-float-format* double-float.  Not modelled: a
    token beginning with @ that parses as a time (it is read as a symbol here), and float tokens
    strconv.ParseFloat rejects as out of range (they become symbols in the Go code). *)
+Definition starts_with_at (buf : list byte) : bool := match buf with 64%N :: _ => true | _ => false end.
+Definition resolve_buf (tok buf : list byte) : obj :=
+  if int_rx buf then int_obj (int_val 10 (trim_dots buf))
+  else if float_rx None buf || float_rx (Some 101%N) buf then OFlt FDouble buf
+  else if float_rx (Some 100%N) buf then OFlt FDouble buf
+  else if float_rx (Some 115%N) buf then OFlt FSingle buf
+  else if float_rx (Some 102%N) buf then OFlt FSingle buf
+  else if float_rx (Some 108%N) buf then OFlt FLong buf
+  else if ratio_rx buf then
+    let '(ns, ds) := split_slash buf in
+    let n := int_val 10 ns in let d := int_val 10 ds in
+    if (0 <? d)%Z then let g := Z.gcd n d in ORat (n / g)%Z (d / g)%Z else OSym tok
+  else OSym tok.
 Definition resolve_token (tok : list byte) : obj :=
   let buf := map lower tok in
-  match buf with
-  | 64%N :: _ => OSym tok
-  | _ =>
-      if int_rx buf then int_obj (int_val 10 (trim_dots buf))
-      else if float_rx None buf || float_rx (Some 101%N) buf then OFlt FDouble buf
-      else if float_rx (Some 100%N) buf then OFlt FDouble buf
-      else if float_rx (Some 115%N) buf then OFlt FSingle buf
-      else if float_rx (Some 102%N) buf then OFlt FSingle buf
-      else if float_rx (Some 108%N) buf then OFlt FLong buf
-      else if ratio_rx buf then
-        let '(ns, ds) := split_slash buf in
-        let n := int_val 10 ns in let d := int_val 10 ds in
-        if (0 <? d)%Z then let g := Z.gcd n d in ORat (n / g)%Z (d / g)%Z else OSym tok
-      else OSym tok
-  end.
+  if starts_with_at buf then OSym tok else resolve_buf tok buf.
 
-(* runeMap *)
+(* runeMap: a Go map from the lower-cased name to the character *)
+Fixpoint beqb (a b : list byte) : bool :=
+  match a, b with [], [] => true | x :: a', y :: b' => (x =? y)%N && beqb a' b' | _, _ => false end.
+Definition rune_table : list (list byte * N) :=
+  [([98; 97; 99; 107; 115; 112; 97; 99; 101]%N, 8%N); ([110; 101; 119; 108; 105; 110; 101]%N, 10%N);
+   ([112; 97; 103; 101]%N, 12%N); ([114; 101; 116; 117; 114; 110]%N, 13%N); ([114; 117; 98; 111; 117; 116]%N, 127%N);
+   ([115; 112; 97; 99; 101]%N, 32%N); ([116; 97; 98]%N, 9%N)].
 Definition rune_map (name : list byte) : option N :=
-  match name with
-  | [98; 97; 99; 107; 115; 112; 97; 99; 101]%N => Some 8%N
-  | [110; 101; 119; 108; 105; 110; 101]%N => Some 10%N
-  | [112; 97; 103; 101]%N => Some 12%N
-  | [114; 101; 116; 117; 114; 110]%N => Some 13%N
-  | [114; 117; 98; 111; 117; 116]%N => Some 127%N
-  | [115; 112; 97; 99; 101]%N => Some 32%N
-  | [116; 97; 98]%N => Some 9%N
-  | _ => None
-  end.
+  match find (fun e => beqb (fst e) name) rune_table with Some e => Some (snd e) | None => None end.
 Definition hex_value (b : byte) : N := nth (N.to_nat b) hex_table 46%N.
 (* pushChar: None = "'#\...' is not a valid character" *)
 Definition resolve_char (tok : list byte) : option obj :=
